@@ -8,33 +8,45 @@
  *                                  at  coap_register_async(delay 0 = indefinite) + coap_async_trigger() after D ms
  *                                  dc  handler returns no code (empty ACK); the application sends a separate CON after D ms
  *                                  dn  same, separate NON
+ *                                  da  same, but sent as an ACK-typed message with a message id of its own (an ACK that
+ *                                      matches nothing on the client's send queue; libcoap's client hands it to
+ *                                      handle_response, where only last_ack_mid filters duplicates)
  *             a trailing '+' = the server application remembers the tokens it has answered and answers a duplicate
  *             request that arrives afterwards with nothing (libcoap then sends just an empty ACK)
  *   D         server delay in ms (>= 1)
  *   cmid0/smid0  initial tx_mid of the client / server session      rc/rs  PRNG byte for the client / server context
  *   mode      q = next request when the whole system is quiescent; e = next request as soon as the previous concluded
- *   reqs      comma list  <C|N><method 1..4>          e.g. C1,N2
+ *   reqs      comma list  <C|N><method 1..4>[/<token>]     e.g. C1,N2,C1/-,C3/a1b2   token: lower-case hex, <= 8 bytes,
+ *             "-" = the zero-length token; default = c0+i 07 for the i-th request
  *   verdicts  k-th response-handler call returns o (COAP_RESPONSE_OK) or f (FAIL); default o; "-" = empty
  *   fates     fate of the k-th datagram transmitted (both directions, in order of transmission):
  *             d<ms> deliver after ms | x drop | u<ms>+<ms> two copies; default d0; "-" = empty
+ *
+ *   xchg2 <same arguments>     (mode q only, no explicit tokens)  TWO client sessions A and B in the one client context, both
+ *             starting at message id cmid0: every entry of <reqs> is sent on A and on B at the same instant (requests 2i and
+ *             2i+1, tokens c0+index 07), so the two sessions always have Confirmables with EQUAL message ids outstanding in the
+ *             shared context->sendqueue.  Everything that belongs to session B (datagrams in both directions, send, rsp, nack,
+ *             req) is printed with its message id + 65536, so that the ids of the trace are unique.  Not modelled in Lean:
+ *             the implementation's trace is judged against the property by the oracle only.
  *
  * Output (space separated, virtual ms):  send@T:i:MID  ctx@T:K:CODE:MID:TOK  stx@…  crx@…  srx@…  req@T:MID:TOK
  *   rsp@T:K:CODE:MID:TOK:v  nack@T:REASON:MID  snack@T:REASON:MID  end@T  sum:i=<rsp>/<nack> ...  st:ca=..,sq=..,dq=..
  */
 #include "sim_core.h"
 
-#define MAXREQ 8
+#define MAXREQ 8          /* entries of <reqs> */
+#define MAXREQ2 16        /* requests (xchg2: two per entry) */
 #define MAXFATE 256
 #define MAXFLY 256
 #define MAXPEND 32
 
-enum { P_PB, P_AC, P_AT, P_DC, P_DN };
+enum { P_PB, P_AC, P_AT, P_DC, P_DN, P_DA };
 static int pers, pers_dedup, mode_eager;
 static unsigned Dms, cmid0, smid0;
 static uint8_t rc_byte, rs_byte;
 static int cur_side; /* 0 client, 1 server: who is running inside libcoap */
 
-static struct { int con, method; uint8_t tok[2]; int sent, nrsp, nnack; int mid; } reqs[MAXREQ];
+static struct { int con, method; uint8_t tok[8]; size_t tkl; int sent, nrsp, nnack; int mid; } reqs[MAXREQ2];
 static int nreqs, cur_req;
 static char verdicts[256]; static int nverd, verd_pos;
 static struct { int kind; unsigned d1, d2; } fates[MAXFATE];
@@ -50,7 +62,18 @@ static uint8_t answered[MAXPEND][8]; static size_t answered_l[MAXPEND]; static i
 static int srv_mid_set;
 
 static coap_context_t *srv, *cli;
-static coap_session_t *cs;
+static coap_session_t *cs, *cs2;
+static int two;                     /* xchg2 */
+static coap_session_t *srv_seen[2]; /* server-side sessions whose tx_mid has been set */
+
+/* does this (client- or server-side) session belong to channel B?  */
+static int chan_b(const coap_session_t *s) {
+  if (!two || !cs2 || !s) return 0;
+  if (s == cs2) return 1;
+  if (s->type == COAP_SESSION_TYPE_CLIENT) return 0;
+  return coap_address_equals(&s->addr_info.remote, &cs2->addr_info.local);
+}
+static int disp_mid(const coap_session_t *s, int mid) { return (mid & 0xffff) + (chan_b(s) ? 65536 : 0); }
 
 static int x_prng(void *out, size_t len) {
   memset(out, cur_side ? rs_byte : rc_byte, len);
@@ -61,7 +84,7 @@ static void log_dgram(const char *tag, coap_tick_t t, const sim_dgram_t *d) {
   char tk[20];
   if (!d->decoded) { sim_logf("%s@%llu:raw", tag, (unsigned long long)t); return; }
   sim_tok(tk, d->token, d->tkl);
-  sim_logf("%s@%llu:%c:%d:%d:%s", tag, (unsigned long long)t, sim_kind[d->type], d->code, d->mid, tk);
+  sim_logf("%s@%llu:%c:%d:%d:%s", tag, (unsigned long long)t, sim_kind[d->type], d->code, disp_mid(d->session, d->mid), tk);
 }
 
 static void x_tx_logger(const sim_dgram_t *d) {
@@ -82,8 +105,10 @@ static void x_tx_hook(const sim_dgram_t *d) {
 }
 
 /* ------------------------------------------------------------------ client callbacks */
+/* the request the application is waiting for if it carries this token, else the first request with this token */
 static int find_req(const uint8_t *tok, size_t tkl) {
-  for (int i = 0; i < nreqs; i++) if (tkl == 2 && !memcmp(tok, reqs[i].tok, 2)) return i;
+  if (cur_req >= 0 && tkl == reqs[cur_req].tkl && !memcmp(tok, reqs[cur_req].tok, tkl)) return cur_req;
+  for (int i = 0; i < nreqs; i++) if (tkl == reqs[i].tkl && !memcmp(tok, reqs[i].tok, tkl)) return i;
   return -1;
 }
 static coap_response_t x_on_response(coap_session_t *session, const coap_pdu_t *sent, const coap_pdu_t *rcvd, const coap_mid_t mid) {
@@ -91,26 +116,27 @@ static coap_response_t x_on_response(coap_session_t *session, const coap_pdu_t *
   coap_bin_const_t tok = coap_pdu_get_token(rcvd);
   int v = verd_pos < nverd ? verdicts[verd_pos] : 'o';
   int i = find_req(tok.s, tok.length);
-  (void)session; (void)sent;
+  (void)sent;
   verd_pos++;
   sim_tok(tk, tok.s, tok.length > 8 ? 8 : tok.length);
   sim_logf("rsp@%llu:%c:%d:%d:%s:%c", (unsigned long long)sim_now, sim_kind[coap_pdu_get_type(rcvd) & 3],
-           (int)coap_pdu_get_code(rcvd), (int)(uint16_t)mid, tk, v);
+           (int)coap_pdu_get_code(rcvd), disp_mid(session, (int)(uint16_t)mid), tk, v);
   if (i >= 0) reqs[i].nrsp++;
   return v == 'f' ? COAP_RESPONSE_FAIL : COAP_RESPONSE_OK;
 }
 static void x_on_nack(coap_session_t *session, const coap_pdu_t *sent, const coap_nack_reason_t reason, const coap_mid_t mid) {
   if (session->type == COAP_SESSION_TYPE_CLIENT) {
-    sim_logf("nack@%llu:%s:%d", (unsigned long long)sim_now, sim_nack_name(reason), (int)(uint16_t)mid);
+    sim_logf("nack@%llu:%s:%d", (unsigned long long)sim_now, sim_nack_name(reason), disp_mid(session, (int)(uint16_t)mid));
     if (sent) {
       coap_bin_const_t tok = coap_pdu_get_token(sent);
       int i = find_req(tok.s, tok.length);
       if (i >= 0) reqs[i].nnack++;
     } else {
-      for (int i = 0; i < nreqs; i++) if (reqs[i].sent && reqs[i].mid == (int)(uint16_t)mid) { reqs[i].nnack++; break; }
+      for (int i = 0; i < nreqs; i++)
+        if (reqs[i].sent && reqs[i].mid == (int)(uint16_t)mid && (!two || (i & 1) == chan_b(session))) { reqs[i].nnack++; break; }
     }
   } else
-    sim_logf("snack@%llu:%s:%d", (unsigned long long)sim_now, sim_nack_name(reason), (int)(uint16_t)mid);
+    sim_logf("snack@%llu:%s:%d", (unsigned long long)sim_now, sim_nack_name(reason), disp_mid(session, (int)(uint16_t)mid));
 }
 static int x_on_event(coap_session_t *session, const coap_event_t event) { (void)session; (void)event; return 0; }
 
@@ -139,9 +165,14 @@ static void hnd(coap_resource_t *r, coap_session_t *s, const coap_pdu_t *req, co
   coap_bin_const_t tok = coap_pdu_get_token(req);
   size_t tl = tok.length > 8 ? 8 : tok.length;
   (void)r; (void)q;
-  if (!srv_mid_set) { s->tx_mid = (uint16_t)smid0; srv_mid_set = 1; }
+  if (!two) {
+    if (!srv_mid_set) { s->tx_mid = (uint16_t)smid0; srv_mid_set = 1; }
+  } else if (srv_seen[0] != s && srv_seen[1] != s) {      /* each server-side session starts at smid0 */
+    s->tx_mid = (uint16_t)smid0;
+    srv_seen[srv_seen[0] ? 1 : 0] = s;
+  }
   sim_tok(tk, tok.s, tl);
-  sim_logf("req@%llu:%d:%s", (unsigned long long)sim_now, (int)(uint16_t)coap_pdu_get_mid(req), tk);
+  sim_logf("req@%llu:%d:%s", (unsigned long long)sim_now, disp_mid(s, (int)(uint16_t)coap_pdu_get_mid(req)), tk);
   if (pers == P_PB) {
     coap_pdu_set_code(rsp, COAP_RESPONSE_CODE_CONTENT);
     return;
@@ -177,9 +208,10 @@ static void srv_app_timers(void) {
       coap_async_trigger(pend[best].async);
       coap_io_prepare_epoll(srv, sim_now);
     } else {
-      coap_pdu_t *p = coap_pdu_init(pers == P_DC ? COAP_MESSAGE_CON : COAP_MESSAGE_NON, COAP_RESPONSE_CODE_CONTENT,
+      coap_pdu_t *p = coap_pdu_init(pers == P_DC ? COAP_MESSAGE_CON : pers == P_DA ? COAP_MESSAGE_ACK : COAP_MESSAGE_NON,
+                                    COAP_RESPONSE_CODE_CONTENT,
                                     coap_new_message_id(pend[best].s), coap_session_max_pdu_size(pend[best].s));
-      coap_add_token(p, pend[best].tkl, pend[best].tok);
+      if (pend[best].tkl) coap_add_token(p, pend[best].tkl, pend[best].tok);
       mark_answered(pend[best].tok, pend[best].tkl);
       coap_send(pend[best].s, p);
     }
@@ -190,23 +222,47 @@ static void srv_app_timers(void) {
 static int parse_line(char **w, int n) {
   char *p;
   size_t l;
-  if (n != 11 || strcmp(w[0], "xchg")) return 0;
+  if (n != 11 || (strcmp(w[0], "xchg") && strcmp(w[0], "xchg2"))) return 0;
+  two = !strcmp(w[0], "xchg2");
   l = strlen(w[1]);
   pers_dedup = 0;
   if (l == 3 && w[1][2] == '+') { pers_dedup = 1; w[1][2] = 0; }
   if (!strcmp(w[1], "pb")) pers = P_PB; else if (!strcmp(w[1], "ac")) pers = P_AC; else if (!strcmp(w[1], "at")) pers = P_AT;
-  else if (!strcmp(w[1], "dc")) pers = P_DC; else if (!strcmp(w[1], "dn")) pers = P_DN; else return 0;
+  else if (!strcmp(w[1], "dc")) pers = P_DC; else if (!strcmp(w[1], "dn")) pers = P_DN;
+  else if (!strcmp(w[1], "da")) pers = P_DA; else return 0;
   Dms = (unsigned)atoi(w[2]); cmid0 = (unsigned)atoi(w[3]); smid0 = (unsigned)atoi(w[4]);
   rc_byte = (uint8_t)atoi(w[5]); rs_byte = (uint8_t)atoi(w[6]);
   if (Dms < 1) return 0;
-  if (!strcmp(w[7], "q")) mode_eager = 0; else if (!strcmp(w[7], "e")) mode_eager = 1; else return 0;
+  if (!strcmp(w[7], "q")) mode_eager = 0; else if (!strcmp(w[7], "e") && !two) mode_eager = 1; else return 0;
   nreqs = 0;
   for (p = strtok(w[8], ","); p; p = strtok(NULL, ",")) {
-    if (nreqs >= MAXREQ || strlen(p) != 2 || (p[0] != 'C' && p[0] != 'N') || p[1] < '1' || p[1] > '4') return 0;
+    size_t pl = strlen(p);
+    if (nreqs >= (two ? MAXREQ2 : MAXREQ) || pl < 2 || (p[0] != 'C' && p[0] != 'N') || p[1] < '1' || p[1] > '4') return 0;
+    if (two && pl != 2) return 0;
     memset(&reqs[nreqs], 0, sizeof(reqs[0]));
     reqs[nreqs].con = p[0] == 'C'; reqs[nreqs].method = p[1] - '0';
-    reqs[nreqs].tok[0] = (uint8_t)(0xc0 + nreqs); reqs[nreqs].tok[1] = 0x07;
+    if (pl == 2) { reqs[nreqs].tok[0] = (uint8_t)(0xc0 + nreqs); reqs[nreqs].tok[1] = 0x07; reqs[nreqs].tkl = 2; }
+    else {
+      const char *t = p + 3;
+      size_t tl = pl - 3;
+      if (p[2] != '/' || !tl) return 0;
+      if (!strcmp(t, "-")) reqs[nreqs].tkl = 0;
+      else {
+        if (tl % 2 || tl > 16) return 0;
+        for (size_t k = 0; k < tl; k++) {
+          int c = t[k], v = c >= '0' && c <= '9' ? c - '0' : c >= 'a' && c <= 'f' ? c - 'a' + 10 : -1;
+          if (v < 0) return 0;
+          reqs[nreqs].tok[k / 2] = (uint8_t)((reqs[nreqs].tok[k / 2] << 4) | v);
+        }
+        reqs[nreqs].tkl = tl / 2;
+      }
+    }
     nreqs++;
+    if (two) {                       /* the same request on session B */
+      reqs[nreqs] = reqs[nreqs - 1];
+      reqs[nreqs].tok[0] = (uint8_t)(0xc0 + nreqs);
+      nreqs++;
+    }
   }
   if (!nreqs) return 0;
   nverd = 0; verd_pos = 0;
@@ -244,7 +300,7 @@ static int async_pending(coap_tick_t *due) {
 
 static int quiescent(void) {
   coap_tick_t due = 0;
-  if (nfly || sim_sendq_len(cli) || sim_sendq_len(srv) || sim_delayq_len(cs)) return 0;
+  if (nfly || sim_sendq_len(cli) || sim_sendq_len(srv) || sim_delayq_len(cs) || (cs2 && sim_delayq_len(cs2))) return 0;
   if (async_pending(&due)) return 0;
   for (int i = 0; i < MAXPEND; i++) if (pend[i].used) return 0;
   return 1;
@@ -257,7 +313,7 @@ static void step(char *line) {
   int n = h_words(line, w, 12);
   if (!parse_line(w, n)) { printf("bad-op"); return; }
   sim_reset();
-  nfly = 0; nanswered = 0; srv_mid_set = 0; cur_req = -1; pend_ids = 0;
+  nfly = 0; nanswered = 0; srv_mid_set = 0; cur_req = -1; pend_ids = 0; cs2 = NULL; srv_seen[0] = srv_seen[1] = NULL;
   memset(pend, 0, sizeof(pend));
   sim_tx_hook = x_tx_hook;
   sim_tx_logger = x_tx_logger;
@@ -282,6 +338,7 @@ static void step(char *line) {
   cur_side = 0;
   cs = sim_new_client(cli, ntohs(ep->bind_addr.addr.sin.sin_port));
   cs->tx_mid = (uint16_t)cmid0;
+  if (two) { cs2 = sim_new_client(cli, ntohs(ep->bind_addr.addr.sin.sin_port)); cs2->tx_mid = (uint16_t)cmid0; }
 
   for (int iter = 0; iter < 4000; iter++) {
     /* 1. deliver what has arrived: earliest (arrival, seq, copy) first */
@@ -318,16 +375,19 @@ static void step(char *line) {
     {
       int cur_done = cur_req < 0 || (mode_eager && (reqs[cur_req].nrsp + reqs[cur_req].nnack) > 0) || quiescent();
       if (cur_done && cur_req + 1 < nreqs) {
-        coap_pdu_t *p;
-        cur_req++;
-        cur_side = 0;
-        reqs[cur_req].mid = (int)(uint16_t)coap_new_message_id(cs);
-        reqs[cur_req].sent = 1;
-        sim_logf("send@%llu:%d:%d", (unsigned long long)sim_now, cur_req, reqs[cur_req].mid);
-        p = sim_make_pdu(cs, reqs[cur_req].con ? COAP_MESSAGE_CON : COAP_MESSAGE_NON, reqs[cur_req].method, reqs[cur_req].mid,
-                         reqs[cur_req].tok, 2, NULL, 0);
-        coap_add_option(p, COAP_OPTION_URI_PATH, 1, (const uint8_t *)"r");
-        coap_send(cs, p);
+        for (int k = 0; k < (two ? 2 : 1); k++) {      /* xchg2: on session A and on session B at the same instant */
+          coap_session_t *ss = k ? cs2 : cs;
+          coap_pdu_t *p;
+          cur_req++;
+          cur_side = 0;
+          reqs[cur_req].mid = (int)(uint16_t)coap_new_message_id(ss);
+          reqs[cur_req].sent = 1;
+          sim_logf("send@%llu:%d:%d", (unsigned long long)sim_now, cur_req, disp_mid(ss, reqs[cur_req].mid));
+          p = sim_make_pdu(ss, reqs[cur_req].con ? COAP_MESSAGE_CON : COAP_MESSAGE_NON, reqs[cur_req].method, reqs[cur_req].mid,
+                           reqs[cur_req].tok, reqs[cur_req].tkl, NULL, 0);
+          coap_add_option(p, COAP_OPTION_URI_PATH, 1, (const uint8_t *)"r");
+          coap_send(ss, p);
+        }
         continue;
       }
     }
@@ -346,6 +406,10 @@ static void step(char *line) {
   }
   sim_logf("end@%llu", (unsigned long long)sim_now);
   for (int i = 0; i < nreqs; i++) sim_logf("sum:%d=%d/%d", i, reqs[i].nrsp, reqs[i].nnack);
+  if (two)
+    sim_logf("st:ca=%u,sq=%u,dq=%u,ca2=%u,dq2=%u,q=%d", sim_con_active(cs), sim_sendq_len(cli), sim_delayq_len(cs),
+             sim_con_active(cs2), sim_delayq_len(cs2), quiescent());
+  else
   sim_logf("st:ca=%u,sq=%u,dq=%u,q=%d", sim_con_active(cs), sim_sendq_len(cli), sim_delayq_len(cs), quiescent());
   cur_side = 0;
   sim_free_all(0);
